@@ -314,17 +314,21 @@ Section Interp2.
     | it :: rest => match step it st with Some (None, st1) => g2_items step rest st1 | r => r end
     end.
 
-  Fixpoint g2_exec (s : g2stmt) (st : g2state) {struct s} : g2sres :=
-    let fix block (l : list g2stmt) (st : g2state) {struct l} : g2sres :=
+  (* a block, and a block in a scope of its own, over the statement interpreter [exec] (nested recursion: g2_exec below) *)
+  Definition g2_block_with (exec : g2stmt -> g2state -> g2sres) : list g2stmt -> g2state -> g2sres :=
+    fix block (l : list g2stmt) (st : g2state) {struct l} : g2sres :=
       match l with
       | [] => Some (None, st)
-      | x :: t => match g2_exec x st with Some (None, st1) => block t st1 | r => r end
-      end in
-    let scoped (l : list g2stmt) (st : g2state) : g2sres :=
-      match block l st with
-      | Some (r, st1) => Some (r, g2_leave (length (g2_env st)) st1)
-      | None => None
-      end in
+      | x :: t => match exec x st with Some (None, st1) => block t st1 | r => r end
+      end.
+  Definition g2_scoped_with (exec : g2stmt -> g2state -> g2sres) (l : list g2stmt) (st : g2state) : g2sres :=
+    match g2_block_with exec l st with
+    | Some (r, st1) => Some (r, g2_leave (length (g2_env st)) st1)
+    | None => None
+    end.
+
+  Fixpoint g2_exec (s : g2stmt) (st : g2state) {struct s} : g2sres :=
+    let scoped := g2_scoped_with g2_exec in
     match s with
     | G2Define xs e =>
       match g2_eval e st with
@@ -362,7 +366,10 @@ Section Interp2.
     | G2Range k v e body =>
       match g2_eval e st with
       | Some ([V2Slice l], st1) =>
-        g2_items (fun it s0 => scoped body (g2_bind v (snd it) (g2_bind k (fst it) s0))) (g2_index_items 0 l) st1
+        g2_items (fun it s0 => match scoped body (g2_bind v (snd it) (g2_bind k (fst it) s0)) with
+                               | Some (r, s1) => Some (r, g2_leave (length (g2_env s0)) s1)      (* k and v go too *)
+                               | None => None
+                               end) (g2_index_items 0 l) st1
       | Some ([V2Nil], st1) => Some (None, st1)
       | _ => None
       end
@@ -370,11 +377,7 @@ Section Interp2.
     | G2Expr e => match g2_eval e st with Some (_, st1) => Some (None, st1) | None => None end
     end.
 
-  Fixpoint g2_block (l : list g2stmt) (st : g2state) : g2sres :=
-    match l with
-    | [] => Some (None, st)
-    | x :: t => match g2_exec x st with Some (None, st1) => g2_block t st1 | r => r end
-    end.
+  Definition g2_block : list g2stmt -> g2state -> g2sres := g2_block_with g2_exec.
 
   Fixpoint g2_find (p : list g2decl) (f : gname) : option g2decl :=
     match p with [] => None | d :: t => if str_eq (g2d_name d) f then Some d else g2_find t f end.
@@ -397,13 +400,14 @@ Section Interp2.
 End Interp2.
 
 (* ---- the canonical program: generator/generator.go -------------------------------------------------------------------- *)
+Definition canon_NewGenerator_loop : list g2stmt :=
+  [ G2If (G2Sel (G2Var "f") "Generate")
+      [ G2SetIndex (G2Var "local") (G2Conv "string" (G2Method (G2Sel (G2Var "f") "Desc") "Package" [])) G2True ] [] ].
 Definition canon_NewGenerator_body : list g2stmt :=
   [ G2Define ["features"; "err"] (G2Call "findFeatures" [G2Var "featureNames"]);
     G2If (G2Ne (G2Var "err") G2Nil) [ G2Return [G2Nil; G2Var "err"] ] [];
     G2Define ["local"] (G2Make "string" "bool");
-    G2Range "_" "f" (G2Var "allFiles")
-      [ G2If (G2Sel (G2Var "f") "Generate")
-          [ G2SetIndex (G2Var "local") (G2Conv "string" (G2Method (G2Sel (G2Var "f") "Desc") "Package" [])) G2True ] [] ];
+    G2Range "_" "f" (G2Var "allFiles") canon_NewGenerator_loop;
     G2Return [ G2Lit true "Generator" ["seen"; "ext"; "features"; "local"]
                  [ G2Make "featureHelpers" "bool"; G2Var "ext"; G2Var "features"; G2Var "local" ];
                G2Nil ] ].
@@ -476,14 +480,14 @@ Definition g2_run_all (p : list g2decl) (files : list pfile) ff feat_gen (names 
 (* ---- what GenOrder.v says -------------------------------------------------------------------------------------------- *)
 (* the helpers of feature number k were already made for this import path *)
 Definition g2seen := list (name * nat).
-Definition g2_seen_has (s : g2seen) (path : name) (k : nat) : bool := existsb (fun e => name_eqb (fst e) path && Nat.eqb (snd e) k) s.
+Definition g2_seen_has (s : g2seen) (path : name) (k : nat) : bool := existsb (fun e => name_eqb path (fst e) && Nat.eqb k (snd e)) s.
 Fixpoint g2_file_events (feat_gen : name -> bool) (i : nat) (path : name) (k : nat) (fs : list name) (s : g2seen) : list g2event * g2seen :=
   match fs with
   | [] => ([], s)
   | n :: rest =>
     if feat_gen n then
       if g2_seen_has s path k then let (ev, s') := g2_file_events feat_gen i path (S k) rest s in (EvGenerateFile n i :: ev, s')
-      else let (ev, s') := g2_file_events feat_gen i path (S k) rest ((path, k) :: s) in (EvGenerateFile n i :: EvHelpers n :: ev, s')
+      else let (ev, s') := g2_file_events feat_gen i path (S k) rest (s ++ [(path, k)]) in (EvGenerateFile n i :: EvHelpers n :: ev, s')
     else let (ev, s') := g2_file_events feat_gen i path (S k) rest s in (EvGenerateFile n i :: ev, s')
   end.
 Fixpoint g2_files_spec (files : list pfile) (feat_gen : name -> bool) (fs : list name) (s : g2seen) (todo : list nat)
